@@ -269,6 +269,15 @@ class Row(PyModel):
         self.d = d
 
 
+class RowType(PyModel):
+    """pandas.DataFrame (the class) as used by to_dfs: one row from a dict of one-element lists"""
+    def __call__(self, d=None, **k):
+        return Row(d)
+
+    def from_dict(self, d, **k):
+        return Row(d)
+
+
 class Table(PyModel):
     def __init__(self, rows):
         self.rows = rows
@@ -280,7 +289,7 @@ def to_dfs_cases(prog, rep, fails):
     for variant in ("full", "no-stocks", "empty"):
         w = World(prog)
         it = w.it
-        it.hooks["pandas.DataFrame.from_dict"] = lambda d, **k: Row(d)
+        it.hooks["pandas.DataFrame"] = RowType()
         it.hooks["pandas.concat"] = lambda rows, **k: Table(list(rows))
         strT = it.builtin("str")
         dd = [defs(w, "DimensionDefinition", name="Time", letter="t", dtype=strT), defs(w, "DimensionDefinition", name="Aa", letter="a", dtype=strT)]
